@@ -119,3 +119,87 @@ pub fn make_history(entries: &[(crate::SeqNo, u64)]) -> Option<SuperVersions> {
 pub fn history_pairs(h: &SuperVersions) -> Vec<(crate::SeqNo, u64)> {
     h.verif_iter().map(|sv| (sv.seqno, sv.version.id())).collect()
 }
+
+// ---------------------------------------------------------------------------------------------
+// key-value separation helpers
+
+/// A decoded blob indirection: `(blob file id, offset, on-disk size, uncompressed size)`
+pub fn decode_indirection(bytes: &[u8]) -> crate::Result<(u64, u64, u32, u32)> {
+    use crate::coding::Decode;
+    let mut reader = bytes;
+    let ind = crate::blob_tree::handle::BlobIndirection::decode_from(&mut reader)?;
+    Ok((
+        ind.vhandle.blob_file_id,
+        ind.vhandle.offset,
+        ind.vhandle.on_disk_size,
+        ind.size,
+    ))
+}
+
+/// Resolves an indirection against the blob files of `version` (no cache involved); `None` = dangling pointer
+pub fn resolve_indirection(
+    version: &Version,
+    blobs_folder: &std::path::Path,
+    key: &[u8],
+    bytes: &[u8],
+) -> crate::Result<Option<Vec<u8>>> {
+    use crate::coding::Decode;
+    let mut reader = bytes;
+    let ind = crate::blob_tree::handle::BlobIndirection::decode_from(&mut reader)?;
+    let Some(blob_file) = version.blob_files.get(ind.vhandle.blob_file_id) else {
+        return Ok(None);
+    };
+    let file = std::fs::File::open(blobs_folder.join(ind.vhandle.blob_file_id.to_string()))?;
+    let value = crate::vlog::blob_file::reader::Reader::new(blob_file, &file).get(key, &ind.vhandle)?;
+    Ok(Some(value.to_vec()))
+}
+
+/// gc statistics of a version: `(blob file id, len, bytes, on_disk_bytes)`, sorted by id
+pub fn gc_stats_of(version: &Version) -> Vec<(u64, usize, u64, u64)> {
+    let mut v: Vec<_> = version
+        .gc_stats()
+        .iter()
+        .map(|(id, e)| (*id, e.len, e.bytes, e.on_disk_bytes))
+        .collect();
+    v.sort_unstable();
+    v
+}
+
+/// One blob file of a version: `(id, path, item count, total uncompressed bytes, total on-disk bytes)`
+pub fn blob_files_of(version: &Version) -> Vec<(u64, std::path::PathBuf, u64, u64, u64)> {
+    version
+        .blob_files
+        .iter()
+        .map(|bf| {
+            (
+                bf.id(),
+                bf.0.path.clone(),
+                bf.0.meta.item_count,
+                bf.0.meta.total_uncompressed_bytes,
+                bf.0.meta.total_compressed_bytes,
+            )
+        })
+        .collect()
+}
+
+/// Scans a blob file: `(key, seqno, offset, uncompressed length, on-disk length of the value)` per blob
+pub fn scan_blob_file(path: &std::path::Path, id: u64) -> crate::Result<Vec<(Vec<u8>, crate::SeqNo, u64, u32, u32)>> {
+    let scanner = crate::vlog::blob_file::scanner::Scanner::new(path, id)?;
+    let mut out = vec![];
+    for e in scanner {
+        let e = e?;
+        #[expect(clippy::cast_possible_truncation)]
+        out.push((e.key.to_vec(), e.seqno, e.offset, e.uncompressed_len, e.value.len() as u32));
+    }
+    Ok(out)
+}
+
+/// Linked blob files of a table: `(blob file id, len, bytes, on_disk_bytes)`
+pub fn linked_blob_files_of(table: &crate::Table) -> crate::Result<Vec<(u64, usize, u64, u64)>> {
+    Ok(table
+        .list_blob_file_references()?
+        .unwrap_or_default()
+        .into_iter()
+        .map(|l| (l.blob_file_id, l.len, l.bytes, l.on_disk_bytes))
+        .collect())
+}
